@@ -177,6 +177,20 @@ pub fn sources_for_body(body: &str, full: bool) -> Vec<String> {
     out
 }
 
+/// Further placements for short bodies: three and four attributes on one declaration, the same attribute
+/// on several declarations, declarations in other orders (terminal declaration first, attribute on the
+/// last declaration), an enum without variants, a unit struct, attributes separated by comments.
+pub fn template_sources(body: &str) -> Vec<String> {
+    let a = format!("#[{body}]");
+    vec![
+        format!("{a}\n#[b]\n{a}\nterminal Tok {{ $T: () }}\nstart A\n{a}\n#[c]\n#[a]\n{a}\nstruct A\n"),
+        format!("start A\nterminal Tok {{}}\nstruct A\n#[z]\n{a}\n#[y] #[x]\nenum E {{}}"),
+        format!("start A\n{a}{a}{a}\nenum A {{ V W($T) }}\n{a} // c\n// d\n{a}\nterminal Tok {{ $T: () }}\n"),
+        format!("#[first]\n// comment between\n{a}\n\n\n#[last]\nstruct A {{ x: $T _: $T }}\nstart A\n{a}\nterminal Tok {{\n    $T: ()\n}}\n{a}\nstruct Unreachable\n"),
+        format!("start A\nstruct A(B)\n{a}\n#[derive(Clone)]\n#[derive(Debug)]\n#[derive(PartialEq)]\nstruct B\n#[derive(Debug)]\n#[derive(Clone)]\n{a}\nterminal Tok {{}}\n"),
+    ]
+}
+
 pub fn run(ctx: &Ctx) -> Outcome {
     let mut out = Outcome::new("exploration");
     let (b_full, b_single) = ctx.tier.pick((4usize, 4usize), (5, 6));
@@ -195,7 +209,8 @@ pub fn run(ctx: &Ctx) -> Outcome {
             let mut visit = |body: &str| {
                 acc.inc("attribute bodies");
                 let symbols = body.chars().count(); // every alphabet symbol is one char
-                for src in sources_for_body(body, symbols <= b_full) {
+                let extra = if symbols <= 3 { template_sources(body) } else { vec![] };
+                for src in sources_for_body(body, symbols <= b_full).into_iter().chain(extra) {
                     acc.inc("sources");
                     if let Verdict::Violation(what, e, o) = check_source(&src, &mut acc) {
                         acc.finding(finding(&src, what, e, o));
@@ -230,7 +245,7 @@ pub fn run(ctx: &Ctx) -> Outcome {
     let sources = acc.get("sources");
     out.cov("evaluations", json!(sources));
     out.cov("distinct_nontrivial", json!(acc.get("accepted sources with attributes")));
-    out.cov("rule", json!(format!("all attribute bodies of at most {b_single} symbols over {:?} wrapped as #[body] before a struct, an enum and the terminal declaration; bodies of at most {b_full} symbols additionally with a trailing comment, without a line break before the declaration, and together with a second attribute from {:?} in both orders and on one line; all sources are distinct; non-trivial = the source is accepted and carries at least one attribute, so the verbatim/placement/order oracle applies (the others must be the exact Lex error of C08)", BODY_ALPHABET, SECOND)));
+    out.cov("rule", json!(format!("all attribute bodies of at most {b_single} symbols over {:?} wrapped as #[body] before a struct, an enum and the terminal declaration; bodies of at most {b_full} symbols additionally with a trailing comment, without a line break before the declaration, and together with a second attribute from {:?} in both orders and on one line; bodies of at most 3 symbols additionally in five templates (three and four attributes on one declaration, the same attribute on several declarations, other declaration orders, an enum without variants, attributes separated by comments); all sources are distinct; non-trivial = the source is accepted and carries at least one attribute, so the verbatim/placement/order oracle applies (the others must be the exact Lex error of C08)", BODY_ALPHABET, SECOND)));
     out.cov("exhaustive", json!(!capped));
     out.cov("scopes", json!([{"name": "attribute bodies", "size": acc.get("attribute bodies"), "sources": sources, "completed": !capped, "exhaustive": !capped}]));
     out.cov("histogram", json!(acc.counters));
